@@ -595,6 +595,13 @@ pub fn run_c06_c08(ctx: &Ctx, prop: &str) -> Report {
             rep.case(format!("COffchain {} {} {} {} {} {}", e_extras(&sc.cfgs), emit::blob(&sc.w.ix), e_key(&sc.w.pid), e_metas(&sc.metas), e_pool_kd(&sc.pool), off.emit(|m| e_metas(m))), nt);
             rep.case(format!("CCpi {} {} {} {} {} {} {}", e_extras(&sc.cfgs), emit::blob(&sc.w.ix), e_key(&sc.w.pid), e_metas(&sc.metas), e_infos(&sc.initial), e_infos(&sc.pool),
                 cpi.emit(|(m, ks)| format!("({}, {})", e_metas(m), emit::list(&ks.iter().map(e_key).collect::<Vec<_>>())))), nt);
+            // the same two runs, with the model reading the stored list from the raw account bytes
+            if k % 2 == 0 {
+                rep.case(format!("COffchainD {} {} {} {} {} {}", emit::blob(&sc.tlv), emit::blob(&sc.w.ix), e_key(&sc.w.pid), e_metas(&sc.metas), e_pool_kd(&sc.pool), off.emit(|m| e_metas(m))), nt);
+            } else {
+                rep.case(format!("CCpiD {} {} {} {} {} {} {}", emit::blob(&sc.tlv), emit::blob(&sc.w.ix), e_key(&sc.w.pid), e_metas(&sc.metas), e_infos(&sc.initial), e_infos(&sc.pool),
+                    cpi.emit(|(m, ks)| format!("({}, {})", e_metas(m), emit::list(&ks.iter().map(e_key).collect::<Vec<_>>())))), nt);
+            }
         } else {
             rep.monitor_case(k as u64, off.is_ok() && !sc.cfgs.is_empty());
         }
@@ -691,6 +698,9 @@ pub fn run_c07(ctx: &Ctx) -> Report {
             }
             if to_coq_sc && (name == "accepted" || rng.chance(1, 2)) {
                 rep.case(format!("CCheck {} {} {} {} {}", e_extras(&sc.cfgs), emit::blob(&sc.w.ix), e_key(&sc.w.pid), e_infos(&accts), got.emit(|_| "tt".to_string())), got.is_ok() && !sc.cfgs.is_empty());
+                if name != "mut:data" && name != "mut:add" {
+                    rep.case(format!("CCheckD {} {} {} {} {}", emit::blob(&sc.tlv), emit::blob(&sc.w.ix), e_key(&sc.w.pid), e_infos(&accts), got.emit(|_| "tt".to_string())), got.is_ok() && !sc.cfgs.is_empty());
+                }
             } else {
                 rep.monitor_case(k as u64, got.is_ok() && !sc.cfgs.is_empty());
             }
@@ -706,6 +716,9 @@ pub fn run_c07(ctx: &Ctx) -> Report {
             }
             let got = run_check(&accepted, &sc.w.ix, &sc.w.pid, &bad);
             rep.count("malformed-data");
+            if to_coq_sc {
+                rep.case(format!("CCheckD {} {} {} {} {}", emit::blob(&bad), emit::blob(&sc.w.ix), e_key(&sc.w.pid), e_infos(&accepted), got.emit(|_| "tt".to_string())), false);
+            }
             if got.is_panic() {
                 rep.violate("check-panic:malformed-data", "check_account_infos panicked on malformed stored data",
                     serde_json::json!({"data": emit::hex(&bad), "observed": format!("{:?}", got)}).to_string());
